@@ -154,6 +154,15 @@ Definition dispatch_facts_ok : bool :=
     && forallb self_call_ok (h_self_calls h)
     && forallb (fun a => negb (has_dot a)) (h_conn_sets h)) (handlers ++ helpers).
 
+(* common.py: what a stream keeps under `throttles` is either a reference to a declared shared throttle (server-wide, per user)
+   or the result of a factory call; every class of common.py defining such a factory method returns a newly constructed
+   object on every path (no `return self`, no cached object) - per-connection throttles are per connection *)
+Definition factories_ok : bool :=
+  match iso_throttle_factory_calls with [] => false | _ => true end
+  && forallb (fun r => String.eqb r "self.throttle" || String.prefix "self.throttle_per_user[" r) iso_throttle_shared_refs
+  && forallb (fun m => existsb (fun f => String.eqb (snd (fst f)) m) iso_factories) iso_throttle_factory_calls
+  && forallb (fun f => String.eqb (snd f) "fresh") iso_factories.
+
 Definition isolation_facts_ok : bool :=
   translator_ok_isolation && translator_ok
-  && sites_ok && naming_ok && construction_ok && passive_ok && dispatch_facts_ok && backend_ok.
+  && sites_ok && naming_ok && construction_ok && passive_ok && dispatch_facts_ok && backend_ok && factories_ok.
